@@ -36,7 +36,7 @@ def scripts(seed, tier):
 
 def main(run: common.Run):
     tier = run.tier
-    n = 10 if tier == "quick" else 120
+    n = 10 if tier == "quick" else 300
     run.bounds = {"programs_per_family": n, "solver_cap_s": 20 if tier == "quick" else 120,
                   "fault_scripts": [s for s, _ in scripts(run.seed, tier)],
                   "solver_timeout_branching": ["default(1ms)", "0 (unlimited)", "1000"]}
